@@ -730,17 +730,20 @@ def case_cptp(rng, ctx):
     # only, bits only, or a closed classical part followed by qubits) measure()
     # may read every output wire in the computational basis: the diagonal of
     # the final operator (for bits only: again the distribution).
+    # (In the third situation both readings are accepted.)
     pure_quantum = expected_mixed(circuit) is not True
     if pure_quantum:
         state = cq_sim.run(circuit, cq_sim.zero_state(dom))
         target = np.real(np.diag(state.ops))
     else:
         target = np.real(probs)
+    both = expected_mixed(circuit) is None and QUBIT in cod
     ok, array = lib(ctx, "measure", circuit.measure, info)
     if ok:
         array = np.asarray(array)
         ctx.expect(
-            "measure-equals-evaluation", close(array, target), call="measure",
+            "measure-equals-evaluation", close(array, target)
+            or (both and close(array, np.real(probs))), call="measure",
             got=[complex(x) for x in array.reshape(-1)[:16]],
             expected=[complex(x) for x in target.reshape(-1)[:16]],
             got_is_expected_squared=bool(
